@@ -145,5 +145,5 @@ for _k, (_a, _b, _c) in _T.items():
     PROPS[_k]["level_text"], PROPS[_k]["level_note"], PROPS[_k]["technique"] = _a, _b, _c
 
 # properties whose theorem module is not complete yet are not claimed
-for _k in ("C13", "C03", "C02", "C06", "C08", "C09", "C05", "C01"):
+for _k in ("C03", "C02", "C06", "C08", "C09", "C05", "C01"):
     PROPS[_k]["unclaimed"] = True
